@@ -1,4 +1,5 @@
 import PicoProofs.BitsetLemmas
+import PicoProofs.GoTieSmall
 /-
 C20 — The small-value bitset behaves as a set for every sequence of insertions.
 -/
@@ -14,6 +15,14 @@ theorem C20_refines_set (xs : List Int) : ∃ s, run empty xs = .ok (s, specRun 
 theorem C20_one_step (s : Small) (x : Int) :
     ∃ s', set s x = .ok (s', decide (0 ≤ x) && mem s x.toNat) ∧
       ∀ i, mem s' i = (mem s i || (decide (0 ≤ x) && decide (i = x.toNat))) := set_sim s x
+
+/-- the same, stated about the Go source itself: `GoSrc.Small.bitsetSet` is the statement-level
+translation of `internal/bitset/set.go` `Small.Set`, regenerated from the working tree on every run.
+For every sequence of `int32` values no insertion panics and the answers are the set's. -/
+theorem C20_source_refines_set (xs : List Int) (h : ∀ x ∈ xs, -2147483648 ≤ x ∧ x < 2147483648) :
+    ∃ s, GoTie.S.srcRun empty xs = .ok (s, specRun [] xs) := by
+  rw [GoTie.S.srcRun_eq xs empty h (by decide)]
+  exact run_refines_spec' xs
 
 /-- the input on which the pinned tree panicked -/
 example : (run empty [64]).isOk = true := by decide
